@@ -152,6 +152,7 @@ type Gen struct {
 	hasModifies bool
 	retCount  int
 	usedTrusted map[string]bool
+	callGuard   string // guard of the alternative of a dynamic call being processed
 	entryAlloc string
 	axioms    []*axiomText
 	usedGInv  bool
@@ -669,6 +670,11 @@ func (g *Gen) Generate() {
 			g.assume(st, t)
 			if r.Assumed {
 				g.usedTrusted["assumption "+g.fname+"/"+r.Name+": "+r.Src] = true
+			}
+		}
+		for _, e := range g.con.Ensures {
+			if e.Meta != "" {
+				g.usedTrusted["meta clause (assumed, not proved) "+g.fname+"/"+e.Name+": "+e.Src] = true
 			}
 		}
 		// vacuity guard: preconditions satisfiable
